@@ -18,6 +18,8 @@ import re
 import textwrap
 import types
 
+import z3
+
 from .. import core
 from ..core import ExcObj, PyRaise, Unsupported, is_sym
 from ..interp import Dummy, Opaque, exc_matches, model
@@ -324,7 +326,15 @@ class FrameStub(OpaqueValue):
             return _ILoc(self)
         if name == 'head':
             return model(lambda *a: FrameStub('rows-head'))
-        raise Unsupported(f'DataFrame.{name} is not modelled')
+        if name.startswith('_'):
+            raise Unsupported(f'DataFrame.{name} is not modelled')
+        # any other method gives *another* table (dropna, query, sort_values, rename ...): what it holds is not modelled, only that it is
+        # no longer the table this one was
+
+        def derived(*a, **k):
+            core.ctx().event('frame-derived', self, name, a, k)
+            return FrameStub(f'{self.what}.{name}(...)')
+        return model(derived)
 
     def _len(self):
         return core.ctx().fresh_int('nrows')
@@ -341,14 +351,60 @@ class _ILoc:
         return FrameStub('rows')
 
 
+class _OpaqueIndex:
+    """a pandas index the executor only passes around: its length is some non-negative integer, its entries some tuples"""
+    _pyvc_model_class = True
+
+    def __init__(self, what, source, n=None):
+        self.what, self.source = what, source
+        self.n = n
+
+    def drop_duplicates(self, **kw):
+        core.ctx().event('call', 'Index.drop_duplicates', self)
+        return _OpaqueIndex(self.what + '.drop_duplicates()', self)
+
+    def _len(self):
+        if self.n is None:
+            c = core.ctx()
+            self.n = c.fresh_int('index_len')
+            c.assume(self.n >= 0)
+        return self.n
+
+    def to_list(self):
+        from .seq import SymSeq
+        from .floats import FIN, SFloat
+        c = core.ctx()
+        fx, fy = c.fresh_fn('index_x', z3.IntSort(), z3.RealSort()), c.fresh_fn('index_y', z3.IntSort(), z3.RealSort())
+        return SymSeq(self._len(), lambda k: (SFloat(FIN, core.mk_real(fx(core.zint(k)))), SFloat(FIN, core.mk_real(fy(core.zint(k))))), 'list')
+
+
 class PandasModel:
     _pyvc_model_class = True
+
+    class MultiIndex:
+        _pyvc_model_class = True
+
+        @staticmethod
+        def from_arrays(arrays, **kw):
+            core.ctx().event('call', 'pandas.MultiIndex.from_arrays', arrays)
+            return _OpaqueIndex('multiindex', arrays)
+
+    @staticmethod
+    def Series(data=None, index=None, **kw):
+        core.ctx().event('call', 'pandas.Series', data, index)
+        return OpaqueValue('series', data=data, index=index)
+
+    @staticmethod
+    def DataFrame(data=None, index=None, **kw):
+        from .pandas_ import DataFrameModel
+        return DataFrameModel(dict(data or {}), index)
 
     @staticmethod
     @model
     def read_csv(path, **kw):
-        core.ctx().event('call', 'pandas.read_csv', path, kw)
-        return FrameStub('dataframe')
+        stub = FrameStub('dataframe')
+        core.ctx().event('call', 'pandas.read_csv', path, kw, stub)
+        return stub
 
 
 class TempDir:
